@@ -1,0 +1,32 @@
+// Copyright ©2012 The bíogo Authors. All rights reserved.
+// Use of this source code is governed by a BSD-style
+// license that can be found in the LICENSE file.
+
+//go:build verif
+
+// Contracts for the hvc verifier (see /verif/DESIGN.md). This file contains
+// comments only; it adds nothing to the package.
+package bam
+
+//@ table jumps
+
+// Assumed contracts of dependencies.
+//@ trusted func ext:bytes.IndexByte
+//@   ensures result == 0 - 1 || (0 <= result && result < len(b) && b[result] == c)
+//@ trusted func ext:errors.New
+//@   ensures result != nil
+//@ trusted func ext:fmt.Errorf
+//@   ensures result != nil
+
+// parseAux walks the auxiliary data of a BAM record: for any bytes it returns
+// a value or an error, never panics and always terminates (C11); every field
+// it returns is a sub-slice of the input of at least three bytes (tag and
+// type), which is what the sam.Aux accessors rely on.
+//@ func parseAux
+//@   mode int
+//@   props C11
+//@   decoder
+//@   loop 0 invariant @idx 0 <= i && i <= len(aux) && len(aa) <= i && fresh(aa)
+//@   loop 0 invariant @fields forall k in 0..len(aa) :: len(aa[k]) >= 3
+//@   loop 0 decreases len(aux) - i
+//@   ensures[C11] @fields result1 == nil ==> forall k in 0..len(result0) :: len(result0[k]) >= 3
